@@ -4,7 +4,7 @@
 # With REUSE_SUITE=1 the (slow) baseline-suite step is skipped when an earlier result already recorded it
 # for the same patch.diff.
 cd /verif/seeded || exit 2
-ids=${@:-$(ls)}
+ids=${@:-$(ls | grep -v "^_")}
 run() {
   d=$1; r=/verif/seeded/$d/result.txt
   old=""
